@@ -3,7 +3,7 @@ import os, sys, json, time, random, traceback
 from fractions import Fraction
 from .tlc import VERIF, OUT, MachineryError, digest
 
-EVID = os.path.join(VERIF, "evidence")
+EVID = os.environ.get("VERIF_EVIDENCE_DIR") or os.path.join(VERIF, "evidence")      # seed trials write their evidence elsewhere
 REPLAY = os.path.join(OUT, "replay")
 FINDINGS = os.path.join(VERIF, "known_findings.json")
 
